@@ -326,6 +326,10 @@ class AppendSampler(PointSampler):
     def sample_points(self, params=Points.empty(), device="cpu"):
         samples_a = self.sampler_a.sample_points(params, device=device)
         samples_b = self.sampler_b.sample_points(params, device=device)
+        if not params.isempty:
+            # both samples contain the parameters, keep them only once (at the end)
+            own_vars = [v for v in samples_a.space.keys() if v not in params.space]
+            samples_a = samples_a[:, own_vars]
         # the length is the number of points for one row of the parameters
         self.set_length(len(samples_a) // max(1, len(params)))
         return samples_a.join(samples_b)
